@@ -424,17 +424,18 @@ func singleDef(info *types.Info, body ast.Node, o types.Object) ast.Expr {
 // returns the visited node ids in order and the exit node. Assignments on the path are applied
 // to env (simple 1:1 assignments to locals and fields), so later guards see them.
 func (f *Flat) WalkPath(env *Env) (visited []int, exit int, err error) {
+	cur := f.Entry
 	defer func() {
 		if r := recover(); r != nil {
 			if ee, ok := r.(evalErr); ok {
 				err = ee
+				f.WalkStop = cur
 				return
 			}
 			panic(r)
 		}
 	}()
 	seen := map[int]bool{}
-	cur := f.Entry
 	for {
 		if seen[cur] {
 			return visited, -1, fmt.Errorf("loop on evaluated path at %s", f.P.pos(f.Nodes[cur].Ast))
